@@ -86,7 +86,7 @@ def rule_concat_once(db: ProgramDB) -> List[Instance]:
     agg_yields = [nd for nd in cfg.nodes if nd.has_yield and nd.ast is not None and not any(nd.stmt is s or any(z is nd.stmt for z in ast.walk(s)) for s in loop.body)
                   and not (isinstance(nd.ast, ast.Expr) and isinstance(nd.ast.value, ast.Yield) and isinstance(nd.ast.value.value, ast.Name)
                            and nd.ast.value.value.id in m.params)]
-    if not agg_yields:
+    if not agg_yields and not inner_yields:
         raise AnalysisError("Concatenate._evaluate__: the aggregate yield was not found")
 
     def writes_own_key(nd) -> bool:
